@@ -45,16 +45,16 @@ var c03First = []string{
 
 // requests that must be rejected before anything executes, whatever came before
 var c03Rejected = []string{
-	`{"query":"query Q($id: ID!) { user(id: $id) { name } }"}`,                            // required variable not supplied
-	`{"query":"query Q($id: ID!) { user(id: $id) { name } }","variables":{}}`,             // the same, empty object
-	`{"query":"query Q($id: ID!) { user(id: $id) { name } }","variables":{"other":1}}`,    // the same, other keys only
-	`{"query":"mutation B($name: String!) { rename(name: $name) { id } }"}`,               // the same for a mutation
-	`{"query":"query Q($id: ID!) { user(id: $id) { name } }","variables":{"id":null}}`,    // null for a non-null variable
-	`{"query":"query A { me { id } } mutation B { rename(name: \"x\") { id } }"}`,        // no operation name for two operations
-	`{"query":"query A { me { id } }","operationName":"Q"}`,                               // unknown operation name
-	`{"query":"{ me { nam } }"}`,                                                          // validation error
-	`{"query":"{ me { name }"}`,                                                           // parse error
-	`{"variables":{"id":"7"}}`,                                                            // no query at all
+	`{"query":"query Q($id: ID!) { user(id: $id) { name } }"}`,                         // required variable not supplied
+	`{"query":"query Q($id: ID!) { user(id: $id) { name } }","variables":{}}`,          // the same, empty object
+	`{"query":"query Q($id: ID!) { user(id: $id) { name } }","variables":{"other":1}}`, // the same, other keys only
+	`{"query":"mutation B($name: String!) { rename(name: $name) { id } }"}`,            // the same for a mutation
+	`{"query":"query Q($id: ID!) { user(id: $id) { name } }","variables":{"id":null}}`, // null for a non-null variable
+	`{"query":"query A { me { id } } mutation B { rename(name: \"x\") { id } }"}`,      // no operation name for two operations
+	`{"query":"query A { me { id } }","operationName":"Q"}`,                            // unknown operation name
+	`{"query":"{ me { nam } }"}`, // validation error
+	`{"query":"{ me { name }"}`,  // parse error
+	`{"variables":{"id":"7"}}`,   // no query at all
 }
 
 // Harness_C03_history: whatever request a server answered before (through
